@@ -246,7 +246,10 @@ def run_unit(name, repo, workdir, rlimit=DEFAULT_RLIMIT, seed=0, vacuity=True):
         for m in gv.marks:
             if m['label'] in ('__vacuity', '__canary'):
                 expected.append('%s/%s/%s' % (crate, m['item'], m['label']))
-        missing = [e for e in expected if e not in va.fail]
+        def _failed(e):
+            pre = e.rsplit('/', 1)[0] + '/'
+            return any(k.startswith(pre) for k in va.fail)
+        missing = [e for e in expected if not _failed(e)]
         out['canaries_expected'] = expected
         out['canaries_not_failing'] = missing
     return out
